@@ -146,7 +146,9 @@ def Comp.solvOutpVolt (c : Comp α) (vi : List α) (io : α) (ph : PhaseCtx α) 
   | .source =>
     if ph.inactive then .ok (0, true)
     else if isZ c.vo || o0 then .ok (0, true)
-    else .ok (c.vo - c.rs * io, false)
+    else
+      let vo := c.vo - c.rs * io
+      if eqB (nsign vo) (nsign c.vo) then .ok (vo, false) else .error (.unstable c.name)
   | .pload | .iload | .rload => .ok (0, o0)
   | .rloss =>
     if isZ vi0 || o0 then .ok (0, true)
@@ -173,6 +175,7 @@ def Comp.solvOutpVolt (c : Comp α) (vi : List α) (io : α) (ph : PhaseCtx α) 
     else
       let v := nabs vi0 - c.rs * io
       if ph.inactive then .ok (0, true)
+      else if !(decide (0 < v)) then .error (.unstable c.name)
       else if vi0 < 0 then .ok (-v, false) else .ok (v, false)
   | .pmux =>
     match priInpAux off vi 0 with
@@ -186,6 +189,7 @@ def Comp.solvOutpVolt (c : Comp α) (vi : List α) (io : α) (ph : PhaseCtx α) 
         let vk := vi.getD k 0
         let v := nabs vk - r * io
         if ph.inactive then .ok (0, true)
+        else if !(decide (0 < v)) then .error (.unstable c.name)
         else if vk < 0 then .ok (-v, false) else .ok (v, false)
   | .rectifier =>
     if isZ vi0 || o0 then .ok (0, true)
@@ -195,7 +199,9 @@ def Comp.solvOutpVolt (c : Comp α) (vi : List α) (io : α) (ph : PhaseCtx α) 
     else
       match c.rsList with
       | some _ => .error (.type "can't multiply sequence by non-int of type 'float'")
-      | none => .ok (nabs (nabs vi0 - 2 * c.rs * io), false)
+      | none =>
+        let v := nabs vi0 - 2 * c.rs * io
+        if !(decide (0 < v)) then .error (.unstable c.name) else .ok (nabs v, false)
 
 /-- `_solv_inp_curr` (the `vo` argument is unused by every kind) -/
 def Comp.solvInpCurr (c : Comp α) (vi : List α) (io : α) (ph : PhaseCtx α) (off : List Bool) : α :=
